@@ -1488,3 +1488,29 @@ package ice
 //@   at call:encoding/binary.ReadUvarint#1 ghostset rd1 = result0
 //@   at call:encoding/binary.ReadUvarint#2 ghostset rd2 = result0
 //@   at call:funcvalue#0 lemma[C06,C10] field == rd0 && arr(value) == arr(uncompressed) && off(value) == off(uncompressed) + rd1 && len(value) == rd2
+//@
+//@ // ---- C10/C05: chunk table of the int coder: the writer turns chunk lengths into end offsets in
+//@ // place (prefix sums); the reader takes chunk j to be [end[j-1], end[j]) ----
+//@ func modifyLengthsToEndOffsets
+//@   loop 0 invariant[C05,C10] 1 <= i && i <= len(lengths) + 1 && index == i - 1 && runningOffset == ite(i > 1, lengths[i - 2], 0)
+//@   loop 0 invariant[C05,C10] forall(j, 0, i - 1, lengths[j] == ite(j == 0, 0, lengths[j - 1]) + old(lengths[j]))
+//@   loop 0 invariant[C05,C10] forall(j, i - 1, len(lengths), lengths[j] == old(lengths[j]))
+//@   ensures[C05,C10] @end_offsets_are_prefix_sums result0 == lengths && forall(j, 0, len(lengths), lengths[j] == ite(j == 0, 0, lengths[j - 1]) + old(lengths[j]))
+//@ func readChunkBoundary
+//@   ensures[C05,C07,C10] end == offsets[chunk] && start == ite(chunk > 0, offsets[chunk - 1], 0)
+//@
+//@ // ---- C16/C04/C10: a field's record in the fields section: (dictionary location, name length),
+//@ // name, (documents with the field, total tokens of the field), in that order, on both sides ----
+//@ func writeUvarints
+//@   ghostset wu0 = ite(len(vals) > 0, vals[0], 0)
+//@   ghostset wu1 = ite(len(vals) > 1, vals[1], 0)
+//@   ensures[C04,C10,C16] wu0 == ite(len(vals) > 0, vals[0], 0) && wu1 == ite(len(vals) > 1, vals[1], 0)
+//@ func persistFields
+//@   at call:writeUvarints#0 lemma[C04,C10,C16] wu0 == dictLocs[fieldID] && wu1 == len(fieldName)
+//@   at call:writeUvarints#1 lemma[C04,C10,C16] wu0 == fieldDocs[uint16(fieldID)] && wu1 == fieldFreqs[uint16(fieldID)]
+//@ func (*Segment).loadFields
+//@   at call:encoding/binary.Uvarint#0 ghostset rdl = result0
+//@   at call:encoding/binary.Uvarint#2 ghostset rdd = result0
+//@   at call:encoding/binary.Uvarint#3 ghostset rdf = result0
+//@   at mapupdate#2 lemma[C04,C10] s.fieldDocs[uint16(fieldID)] == rdd && fieldFreqVal == rdf
+//@   at mapupdate#2 lemma[C04,C10] s.dictLocs[fieldID] == rdl
